@@ -842,6 +842,13 @@ double ESolver::ChargeOnConductor(int conductor, CBigLinProb &L)
 			if (ProblemType==AXISYMMETRIC)
 				a*=(2.*PI*LengthConv*(meshnode[n[0]].x+meshnode[n[1]].x+meshnode[n[2]].x)/3.);
 			else a*=(Depth*LengthConv);
+			// elements of the conformally mapped external region were assembled with eps/kludge
+			if ((ProblemType==AXISYMMETRIC) && labellist[meshele[i].lbl].IsExternal)
+			{
+				double r=(meshnode[n[0]].x+meshnode[n[1]].x+meshnode[n[2]].x)/3.;
+				double z=(meshnode[n[0]].y+meshnode[n[1]].y+meshnode[n[2]].y)/3. - extZo;
+				a/=((r*r+z*z)/(extRi*extRo));
+			}
 			// get normal vector and element flux density;
 			for(k=0,vx=0,vy=0,Dx=0,Dy=0;k<3;k++)
 			{
